@@ -67,13 +67,17 @@ Definition not3 (a : option bool) : option bool :=
   match a with Some b => Some (negb b) | None => None end.
 Definition all3 (l : list (option bool)) : option bool := fold_right and3 (Some true) l.
 Definition any3 (l : list (option bool)) : option bool := fold_right or3 (Some false) l.
-(* exactly one true (strict on undefined entries before the decision) *)
+(* exactly one true; "at least two true" is a definite false whatever else is undefined *)
 Fixpoint one3 (l : list (option bool)) : option bool :=
   match l with
   | [] => Some false
   | Some true :: t => all3 (map not3 t)
   | Some false :: t => one3 t
-  | None :: t => None
+  | None :: t =>
+      match one3 t, any3 t with
+      | Some false, Some true => Some false
+      | _, _ => None
+      end
   end.
 
 Definition b3 (b : bool) : option bool := Some b.
@@ -183,6 +187,33 @@ Fixpoint validate (E : env) (fuel : nat) {struct fuel} : schema -> json -> optio
         match jassoc t E with
         | Some S' => validate E f S' j
         | None => None
+        end
+    end).
+
+(* "the $ref chains of S end within n steps": a static, instance-independent check.
+   Schemas that recurse through the instance (a list node referring to itself
+   under "properties") are not bounded in this sense; for them the fuel needed
+   depends on the depth of the instance. *)
+Definition bounded_body (ref : string -> bool) : schema -> bool :=
+  fix bs (S : schema) : bool :=
+    match S with
+    | SProps ps addl =>
+        forallb (fun ks => bs (snd ks)) ps && match addl with Some a => bs a | None => true end
+    | SItems p r => forallb bs p && match r with Some a => bs a | None => true end
+    | SAllOf l | SAnyOf l | SOneOf l => forallb bs l
+    | SNot s => bs s
+    | SRef t => ref t
+    | _ => true
+    end.
+
+Fixpoint ref_bounded (E : env) (n : nat) {struct n} : schema -> bool :=
+  bounded_body (fun t =>
+    match n with
+    | O => false
+    | Datatypes.S n' =>
+        match jassoc t E with
+        | Some S' => ref_bounded E n' S'
+        | None => false
         end
     end).
 
@@ -548,6 +579,7 @@ Definition draft_of_url (u : string) : option draft :=
   let n := strip_scheme (strip_hash u) in
   if String.eqb n "json-schema.org/draft-07/schema" then Some D7
   else if String.eqb n "json-schema.org/draft/2020-12/schema" then Some D2020
+  else if String.eqb n "json-schema.org/schema" then Some D2020        (* "latest" *)
   else None.
 
 Definition detect_draft (root : json) : res draft :=
@@ -563,15 +595,62 @@ Definition detect_draft (root : json) : res draft :=
 
 Record compiled := { c_draft : draft; c_root : schema; c_env : env }.
 
+(* The library compiles lazily: only the root and the definitions reachable from it
+   through $ref.  Among those, every $ref must resolve, and there must be no cycle
+   made of $ref and the in-place applicators allOf/anyOf/oneOf/not (such a cycle
+   would re-apply a schema to the same instance forever: "infinite loop" error). *)
+Fixpoint all_refs (S : schema) {struct S} : list string :=
+  match S with
+  | SRef t => [t]
+  | SProps ps addl =>
+      flat_map (fun ks => all_refs (snd ks)) ps ++ match addl with Some a => all_refs a | None => [] end
+  | SItems p r => flat_map all_refs p ++ match r with Some a => all_refs a | None => [] end
+  | SAllOf l | SAnyOf l | SOneOf l => flat_map all_refs l
+  | SNot s => all_refs s
+  | _ => []
+  end.
+
+Fixpoint inplace_refs (S : schema) {struct S} : list string :=
+  match S with
+  | SRef t => [t]
+  | SAllOf l | SAnyOf l | SOneOf l => flat_map inplace_refs l
+  | SNot s => inplace_refs s
+  | _ => []
+  end.
+
+Definition add_new (acc ts : list string) : list string :=
+  fold_left (fun a t => if str_in t a then a else (a ++ [t])%list) ts acc.
+
+Fixpoint reach (E : env) (n : nat) (acc : list string) : list string :=
+  match n with
+  | O => acc
+  | Datatypes.S n' =>
+      reach E n' (add_new acc (flat_map (fun t => match jassoc t E with Some sc => all_refs sc | None => [] end) acc))
+  end.
+
+Fixpoint no_cycle (E : env) (n : nat) (stack : list string) (t : string) {struct n} : bool :=
+  match n with
+  | O => false
+  | Datatypes.S n' =>
+      if str_in t stack then false
+      else match jassoc t E with
+           | Some sc => forallb (no_cycle E n' (t :: stack)) (inplace_refs sc)
+           | None => true
+           end
+  end.
+
 Definition compile_root (root : json) : res compiled :=
   match detect_draft root with
   | Ok d =>
       match compile_node d root with
       | Ok (sc, cks) =>
           let E := ("#", sc) :: defs_of cks in
-          if forallb (fun ns => refs_resolve E (snd ns)) E
-          then Ok {| c_draft := d; c_root := sc; c_env := E |}
-          else Err "schema-ref"
+          let R := reach E (List.length E) ["#"] in
+          if negb (forallb (fun t => match jassoc t E with Some s => refs_resolve E s | None => false end) R)
+          then Err "schema-ref"
+          else if negb (forallb (no_cycle E (Datatypes.S (List.length E)) []) R)
+          then Err "schema-loop"
+          else Ok {| c_draft := d; c_root := sc; c_env := E |}
       | Err e => Err e | Panic w => Panic w | Diverge => Diverge
       end
   | Err e => Err e | Panic w => Panic w | Diverge => Diverge
